@@ -165,6 +165,23 @@ pub fn read_ok(buf: &[u8]) -> Option<u8> {
 pub fn read_bad(buf: &[u8]) -> u8 {
     buf[3]
 }
+// the guard kept in a named bool (`let short = a || b; if short`): the comparison still controls the read
+pub fn read_named_ok(buf: &[u8], tag: u8) -> Option<u8> {
+    let short = tag == 0 || buf.len() < 4;
+    if short {
+        return None;
+    }
+    Some(buf[3])
+}
+// a named bool that does not decide the read: both of its edges reach the index
+pub fn read_named_bad(buf: &[u8], tag: u8) -> u8 {
+    let short = buf.len() < 4;
+    let mut n = tag;
+    if short {
+        n = n.wrapping_add(1);
+    }
+    buf[3].wrapping_add(n)
+}
 
 // ---- P17 ordered bounds ----------------------------------------------------------
 pub fn clamp_ok(x: u64, lo: u64, hi: u64) -> u64 {
